@@ -526,3 +526,35 @@ Proof.
     cbn [option_map snd] in E. injection E as ->. apply find_some in F as [Hin _].
     apply nat_mem_In. exact (Hreg _ Hin).
 Qed.
+
+(* ---- the relational reading of an ordered search answer ----------------- *)
+Definition ordered_answer (p : rt -> bool) (k : nat) (all r : list rt) : Prop :=
+  (forall x, In x r -> In x all /\ p x = true) /\
+  (k = 0 -> forall x, In x all -> p x = true -> In x r) /\
+  subseq r all /\
+  (exists rest, filter p all = r ++ rest) /\
+  (1 <= k -> r = firstn k (filter p all) /\ length r <= k /\ length r = Nat.min k (length (filter p all))).
+
+Lemma node_find_all_match_props f s ms add_self k r :
+  node_find_all (iterator f s) None (Some ms) None add_self k = Ok r ->
+  ordered_answer (cb_match ms) k (branch f s add_self) r.
+Proof.
+  rewrite node_find_all_match. intros E. injection E as <-. apply limited_filter_props.
+Qed.
+
+Lemma node_find_all_did_props f s data data_id d add_self k r :
+  merge_data data data_id = Ok (Some d) ->
+  node_find_all (iterator f s) data None data_id add_self k = Ok r ->
+  ordered_answer (did_is d) k (branch f s add_self) r.
+Proof.
+  intros M. rewrite (node_find_all_did _ _ _ _ _ _ _ M). intros E. injection E as <-. apply limited_filter_props.
+Qed.
+
+Lemma merge_data_cases data data_id :
+  merge_data data data_id =
+    match data, data_id with
+    | Some _, Some _ => Err EAssert
+    | Some c, None => Ok (Some c)
+    | None, d => Ok d
+    end.
+Proof. destruct data, data_id; reflexivity. Qed.
